@@ -60,6 +60,8 @@ TSTEPS = (10000, 10000, 3000, 60000, 240000, 1000000, 1500, 120000, 30,
 NAME_POOL = ('O3', 'NO2', 'NO', 'CO', 'PM25_TOT', 'ISOP', 'A', 'B', 'ASO4J',
              'NUMATKN', 'VERY_LONG_NAME16', 'X', 'SO2', 'FORM', 'Z9_',
              'ABCDEFGHIJKLMNO1')
+LONG_NAMES = ('A_NAME_LONGER_THAN_16', 'SEVENTEEN_CHARS_X1',
+              'VERY_LONG_NAME_OF_24_CHR')
 CF_NAMES = ('layer', 'level', 'time', 'time_bounds', 'x', 'y',
             'lambert_conformal_conic')
 _PROJ = dict(GDTYP=2, P_ALP=33.0, P_BET=45.0, P_GAM=-97.0, XCENT=-97.0,
@@ -164,11 +166,14 @@ def _stime(draw):
 @st.composite
 def ioapispecs(draw, routes=ROUTES, ftypes=(1, 1, 2), max_vars=4, max_n=6,
                min_steps=1, max_steps=8, min_lays=1, tsteps=TSTEPS,
-               cross_share=3):
+               cross_share=3, longvar_share=0):
     """Strategy of IoapiSpec dicts.  cross_share: one case in `cross_share`
     (when nt >= 2) has its start time constructed so that the series crosses
     midnight of a weighted day (year end / leap day) inside the file; 0
-    disables."""
+    disables.  longvar_share: one case in `longvar_share` additionally holds
+    a standard-dimension variable whose name has 17-24 characters (spec key
+    'longvar'); the library accepts such a variable but cannot list it, so
+    it is not in the model's varnames; 0 (default) disables."""
     ftype = draw(st.sampled_from(list(ftypes)))
     route = draw(st.sampled_from(list(routes)))
     nv = draw(st.integers(1, max_vars))
@@ -203,10 +208,14 @@ def ioapispecs(draw, routes=ROUTES, ftypes=(1, 1, 2), max_vars=4, max_n=6,
     inner = draw(st.lists(st.integers(1, 63), min_size=nz - 1,
                           max_size=nz - 1, unique=True))
     vglvls = [1.0] + [k / 64.0 for k in sorted(inner, reverse=True)] + [0.0]
-    return dict(ftype=ftype, route=route, vars=names, nt=nt, nz=nz, ny=ny,
-                nx=nx, sdate=sdate, stime=stime, tstep=tstep, xorig=xorig,
-                yorig=yorig, xcell=xcell, ycell=ycell, vglvls=vglvls,
-                dmul=draw(st.integers(1, 5)), crossing=crossing)
+    out = dict(ftype=ftype, route=route, vars=names, nt=nt, nz=nz, ny=ny,
+               nx=nx, sdate=sdate, stime=stime, tstep=tstep, xorig=xorig,
+               yorig=yorig, xcell=xcell, ycell=ycell, vglvls=vglvls,
+               dmul=draw(st.integers(1, 5)), crossing=crossing)
+    if longvar_share and draw(st.integers(1, longvar_share)) == 1:
+        out['longvar'] = draw(st.sampled_from(LONG_NAMES))
+        out['longpos'] = draw(st.integers(0, len(names)))
+    return out
 
 
 # ------------------------------------------------------------ model
@@ -220,10 +229,19 @@ def var_shape(spec):
     return (spec['nt'], spec['nz'], nperim(spec))
 
 
+def built_names(spec):
+    """names handed to the constructor: the listed variables plus, when the
+    spec has one, the over-long (unlistable) name at position 'longpos'"""
+    names = list(spec['vars'])
+    if spec.get('longvar'):
+        names.insert(int(spec.get('longpos', len(names))), spec['longvar'])
+    return names
+
+
 def data_of(spec, name):
     """deterministic float32 ramp, different per variable, values 0..96"""
     shp = var_shape(spec)
-    k = spec['vars'].index(name)
+    k = built_names(spec).index(name)
     n = int(np.prod(shp))
     a = (np.arange(n, dtype='i8') * int(spec.get('dmul', 1)) + 7 * k) % 97
     return a.astype('f4').reshape(shp)
@@ -302,7 +320,7 @@ def griddesc_text(spec, gdnam='VFGRID'):
 
 def _build_arrays(spec):
     from PseudoNetCDF.cmaqfiles._ioapi import ioapi_base
-    arrays = dict((nm, data_of(spec, nm)) for nm in spec['vars'])
+    arrays = dict((nm, data_of(spec, nm)) for nm in built_names(spec))
     fa = dict(SDATE=int(spec['sdate']), STIME=int(spec['stime']),
               TSTEP=int(spec['tstep']), XORIG=float(spec['xorig']),
               YORIG=float(spec['yorig']), XCELL=float(spec['xcell']),
@@ -328,9 +346,9 @@ def _build_griddesc(spec, withcf):
                  VGLVLS=tuple(float(v) for v in spec['vglvls']),
                  FTYPE=int(spec['ftype']), SDATE=int(spec['sdate']),
                  STIME=int(spec['stime']), TSTEP=int(spec['tstep']),
-                 nsteps=int(spec['nt']), var_kwds=list(spec['vars']),
+                 nsteps=int(spec['nt']), var_kwds=built_names(spec),
                  withcf=withcf)
-    for nm in spec['vars']:
+    for nm in built_names(spec):
         f.variables[nm][...] = data_of(spec, nm)
     return f
 
